@@ -291,6 +291,43 @@ def stability(ctx, aotools, nx, ps, r0, L0, ncol, rng, long_rows):
     ctx.check(scr2.scrn.shape == (nx, nx), "shape_after_many_rows", "shape %s after %d rows" % (scr2.scrn.shape, long_rows), wit)
 
 
+def fine_scale_statistics(ctx, aotools, rng, rows, finest=False):
+    """Statistical monitor of "the statistics converge to the model and stay there" at the finest scale the screen has: the
+    variance of the second difference along each newly added row, E[(x[j-1] - 2 x[j] + x[j+1])^2] = 4 D(p) - D(2p), carried by the
+    weakest innovation modes. Sample mean over rows x (nx - 2) pixels (relative standard error ~ sqrt(2 / samples), 1-2 %);
+    asserted within 20 %. Judged for pixel scales >= 1.5e-5 L0 (measured 0.973 .. 1.031 over 240 configurations there; 1.06-1.07
+    at 1.0-1.2e-5 L0, next to the regime of the known finding)."""
+    from scipy import linalg
+    nx = int(rng.integers(8, 19))
+    L0 = float(10 ** rng.uniform(0, 2))
+    ps = float(L0 * (10 ** rng.uniform(np.log10(1.5e-5), -4) if rng.random() < 0.6 else 10 ** rng.uniform(-4, -2)))
+    if finest:
+        ps = float(L0 * rng.uniform(1.5e-5, 2.2e-5))      # always present: the finest sampling at which the recursion is still exact
+    r0 = float(10 ** rng.uniform(-1.3, 0))
+    ncol = int(rng.integers(1, 4))
+    wit = {"nx": nx, "pixel_scale": ps, "r0": r0, "L0": L0, "n_columns": ncol, "pixel_scale/L0": ps / L0, "rows": rows}
+    try:
+        scr = aotools.PhaseScreenVonKarman(nx, ps, r0, L0, random_seed=int(rng.integers(0, 2 ** 31)), n_columns=ncol)
+    except (linalg.LinAlgError, np.linalg.LinAlgError):
+        ctx.count("constructions_raising_LinAlgError")
+        return
+    acc, n = 0.0, 0
+    for k in range(rows + 300):
+        scr.add_row()
+        if k >= 300:                      # the initial FFT screen has left the stencil
+            r = np.asarray(scr.scrn[0], dtype=np.float64)
+            d2 = r[:-2] - 2 * r[1:-1] + r[2:]
+            acc += float((d2 ** 2).sum())
+            n += d2.size
+    model = 4 * float(vk.structure_function(ps, r0, L0)) - float(vk.structure_function(2 * ps, r0, L0))
+    ratio = acc / n / model
+    ctx.case("fine_scale_statistics", key=("fine", nx, ps, r0, L0, ncol), nontrivial=True, sample=dict(wit, second_difference_variance_over_model=ratio, samples=n))
+    ctx.count("fine_scale_statistic_samples", n)
+    ctx.metric("max|second_difference_variance/model - 1|", abs(ratio - 1))
+    ctx.check(0.8 <= ratio <= 1.2, "stability:stationary_statistics:second_difference_variance",
+              "variance of the second difference along new rows is %.3f x the von Karman value (%d samples, rel. standard error ~%.3f)" % (ratio, n, np.sqrt(2.0 / n)), wit)
+
+
 def run(ctx, spec):
     import aotools
     rng = ctx.rng
@@ -316,6 +353,8 @@ def run(ctx, spec):
     stability(ctx, aotools, int(rng.integers(5, 14)), psw, psw * float(10 ** rng.uniform(4.5, 7)), psw * float(10 ** rng.uniform(1.5, 3)), int(rng.integers(1, 3)), rng, 200)
     # one long run of nothing but add_row on a small screen (several hundred rows: block-wise bookkeeping must not repeat)
     history(ctx, aotools, "vk" if spec["shard"] % 2 else "fried", int(rng.integers(4, 9)), 0.05, 0.2, 20.0, 1, rng, 650, all_add=True)
+    for s in range(max(1, spec["stab"] // 4)):
+        fine_scale_statistics(ctx, aotools, rng, 3000 if spec["stab"] <= 1 else 6000, finest=(s == 0 and spec["shard"] % 4 == 0))
     for s in range(spec["stab"]):
         nx = int(rng.integers(5, 22))
         L0 = float(10 ** rng.uniform(0, 2))
